@@ -12,6 +12,7 @@ import (
 
 	"verif/harness/drv"
 	"verif/harness/gen"
+	"verif/harness/rep"
 )
 
 // Bucket life cycle under concurrency (C07, "lost update in the server's own
@@ -415,4 +416,52 @@ func runGatedLifecycle(e *c07Env, aName, point string, bSeq []string, withObject
 		lcDo(e, nil, 9, "delete", bucket, k)
 	}
 	lcDo(e, nil, 9, "delbucket", bucket, 0)
+}
+
+// runAutoBucketRace: with the auto-create-bucket option the first requests that name a
+// bucket create it. When several clients do that at the same moment every one of their
+// uploads must be acknowledged and stored: the bucket exists as soon as any of them made it.
+func runAutoBucketRace(r *rep.Reporter, kind string, rounds int) {
+	s := mustServer(drv.Opts{Kind: kind, AutoBucket: true})
+	defer s.Close()
+	tcp := s.ServeTCP()
+	defer tcp.Close()
+	for round := 0; round < rounds; round++ {
+		bucket := fmt.Sprintf("auto-%04d", round)
+		const clients = 8
+		var wg sync.WaitGroup
+		start := make(chan struct{})
+		status := make([]string, clients)
+		for c := 0; c < clients; c++ {
+			wg.Add(1)
+			go func(c int) {
+				defer wg.Done()
+				cl := drv.NewTCPClient()
+				defer cl.Close()
+				body := []byte(fmt.Sprintf("auto-bucket round %d client %d", round, c))
+				<-start
+				resp, err := cl.Do("PUT", tcp.URL(drv.ObjPath(bucket, fmt.Sprintf("k%d", c)), ""), nil, bytes.NewReader(body), int64(len(body)))
+				if err != nil {
+					status[c] = "error " + err.Error()
+				} else {
+					status[c] = fmt.Sprintf("%d %s", resp.Status, resp.ErrCode())
+				}
+			}(c)
+		}
+		close(start)
+		wg.Wait()
+		r.Eval(1)
+		r.Count("auto_bucket_races", 1)
+		r.Distinct(fmt.Sprintf("%s|auto-bucket-race|%v", kind, status))
+		for c, st := range status {
+			if !strings.HasPrefix(st, "200") {
+				r.Violation(sig("C07", backendClass(kind), "unexpected-status", "auto-bucket-first-use"), fmt.Sprintf("%s with auto-create-bucket: %d clients uploaded to the new bucket %s at the same time; client %d was answered %s (all: %v)", kind, clients, bucket, c, st, status), nil)
+				return
+			}
+			if g := s.Get(bucket, fmt.Sprintf("k%d", c)); g.Status != 200 {
+				r.Violation(sig("C07", backendClass(kind), "acknowledged-upload-lost", "auto-bucket-first-use"), fmt.Sprintf("%s with auto-create-bucket: the upload of client %d into %s was acknowledged but GET answers %s", kind, c, bucket, g), nil)
+				return
+			}
+		}
+	}
 }
